@@ -43,15 +43,15 @@ theorem invC_heap_congr {s : State} {heap' : Ref → Entry} (hI : InvC s)
   · exact e.held_fresh
   · exact e.ret_val
   · exact e.ret_objs
+  · exact e.started_first
 
 theorem invD_heap_congr {s : State} {heap' : Ref → Entry} (hI : InvD s)
     (hc : ∀ r, CoreEq (heap' r) (s.heap r)) : InvD { s with heap := heap' } := by
   have c1 := fun r => (hc r).id
   constructor
-  · intro hcl
-    obtain ⟨t, ht, hp⟩ := hI.progress hcl
-    refine ⟨t, ht, ?_⟩
-    unfold CloseProgress at hp ⊢
+  · intro t ht hop
+    have hp := hI.thr t ht hop
+    unfold CloseRun at hp ⊢
     simp only [Entry.inMapOf, c1]
     exact hp
   · intro hcd
